@@ -512,7 +512,7 @@ def run(ctx, out):
     out.note("leg C2S: %d of %d traces accepted by TLC (%d checked events, %.1fs)" % (out.traces_validated, len(traces), verdicts.n_events, time.time() - t0))
     for tid, fails in verdicts.l1.items():
         it = index[tid]
-        clauses = sorted({c for _, cl in fails for c in cl})
+        clauses = sorted(min(fails)[1])  # the clauses of the first failing call (later calls of the item only repeat it)
         out.violations.append(Violation(",".join(clauses), it, signature=_sig(it, clauses), detail="item %s first failing call %d" % (tid, fails[0][0])))
     for tid, lines in verdicts.l2.items():
         out.drift.append("item %s: call %d (%s) is not the Step of ConfigScopes.tla" % (tid, lines[0], index[tid]["ops"][lines[0] - 1]["op"]))
